@@ -191,6 +191,8 @@ pub const CONTENT_PATTERNS: &[&str] = &[
     // groups that are not called `value` select nothing: the whole match is the extract
     "([a-z]+)=[0-9]+",
     "(?P<key>[a-z]+)=",
+    // a `value` group that need not take part in the match: without it the whole match counts
+    "(?P<value>[0-9]+ )?[a-z]+",
 ];
 pub const INVALID_PATTERNS: &[&str] = &[
     "(", "[a-", "(?P<value>", "*a", "a{2,1}", "\\", "a)(b", "x)|(y", ")", "[a-z]+)=(?:[0-9]", "(?P<value>[a-z]+",
@@ -282,6 +284,29 @@ fn content_extract(pattern: &str, content: &str) -> Result<String, String> {
                 } else {
                     i += 1;
                 }
+            }
+            Ok(String::new())
+        }
+        "(?P<value>[0-9]+ )?[a-z]+" => {
+            let b = content.as_bytes();
+            let mut i = 0;
+            while i < b.len() {
+                if b[i].is_ascii_digit() {
+                    let mut j = i;
+                    while j < b.len() && b[j].is_ascii_digit() {
+                        j += 1;
+                    }
+                    if j + 1 < b.len() && b[j] == b' ' && b[j + 1].is_ascii_lowercase() {
+                        return Ok(content[i..j + 1].to_string());
+                    }
+                } else if b[i].is_ascii_lowercase() {
+                    let mut j = i;
+                    while j < b.len() && b[j].is_ascii_lowercase() {
+                        j += 1;
+                    }
+                    return Ok(content[i..j].to_string());
+                }
+                i += 1;
             }
             Ok(String::new())
         }
